@@ -318,6 +318,26 @@ def correspond(ctx):
                               '%s: %r after %d iterations with %r, but %r after %d iterations with %r (only abstol / reltol differ; the infeasibility tests use feastol)'
                               % (casek['entry'], st, r['iterations'], o, r2['status'], r2['iterations'], o2), dict(casek, options2=o2))
 
+    # (d') op.solve on the same modeling objects: what a solve leaves in the variables and multipliers depends on that solve alone, whatever its status
+    # (a run stopped by maxiters ends 'unknown' and hands out its last iterate) and whatever was solved before
+    import cvxopt.modeling as Mdl
+    def op_history(prefix):
+        xv = Mdl.variable(2, 'x')
+        c1, c2 = (xv[0] + 2 * xv[1] <= 3), (xv >= 0)
+        def mk(): return Mdl.op(-xv[0] - xv[1] * 1.5, [c1, c2])
+        def other(): return Mdl.op(xv[0] + xv[1], [c2, xv[0] + xv[1] >= 1])
+        def snap(p_): return (p_.status, None if xv.value is None else [float(a) for a in xv.value],
+                              [None if c_.multiplier.value is None else [float(a) for a in c_.multiplier.value] for c_ in (c1, c2)])
+        with contextlib.redirect_stdout(io.StringIO()):
+            for step in prefix:
+                q = mk() if step == 'full' else other(); q.solve(options={'show_progress': False})
+            p_ = mk(); p_.solve(options={'show_progress': False, 'maxiters': 2})
+        return snap(p_)
+    ref_h = op_history([])
+    for prefix in (['full'], ['other'], ['full', 'other'], ['other', 'full']):
+        got = op_history(prefix); evals += 1
+        if got != ref_h:
+            ctx.violation('c09:op.solve-history-dependent', "op.solve(options={'maxiters': 2}) after the history %r leaves %r, on fresh objects %r" % (prefix, got, ref_h), {'history': prefix})
     # (e) threads -------------------------------------------------------------
     rounds = 5 if ctx.quick() else 100
     bad_threads = 0
